@@ -250,9 +250,11 @@ class Algebra:
                 # type lands on its grid; the R algebra keeps the value and lets the lemma state the grid.
                 if dst in ("float8_e4m3fn", "float8_e5m2") and src not in ("float8_e4m3fn", "float8_e5m2"):
                     return self.round_to_f8_R(x, dst)
-                if getattr(self, "track_narrowing", False) and FLOAT_DTYPES[dst][1] < FLOAT_DTYPES[src][1] and dst in ("float16", "bfloat16"):
-                    # a marker (identity function) around values narrowed to a 16-bit float: lets a check state WHICH value is rounded
-                    # to the narrow type (the fully scaled result, or an unscaled intermediate that may overflow)
+                if getattr(self, "track_narrowing", False) and dst in ("float16", "bfloat16") and \
+                        (FLOAT_DTYPES[dst][1] < FLOAT_DTYPES[src][1] or FLOAT_DTYPES[dst][0] < FLOAT_DTYPES[src][0]):
+                    # a marker (identity function) around values narrowed to a 16-bit float (fewer significant bits OR a smaller exponent
+                    # range): lets a check state WHICH value is rounded to the narrow type (the fully scaled result, or an intermediate
+                    # that may overflow / lose precision)
                     f = z3.Function(f"narrow_{dst}", z3.RealSort(), z3.RealSort())
                     self.side.append(("fact", f(x) == x))
                     return f(x)
